@@ -8,6 +8,13 @@ import ast
 from .loader import Project, ClassInfo, FuncInfo, is_self_attr, walk_no_nested, dotted
 
 
+class _NoCls:
+    assigns, methods, annots, bases, name = {}, {}, {}, [], ""
+
+
+_NOCLS = _NoCls()
+
+
 class Resolver:
     def __init__(self, project: Project):
         self.p = project
@@ -273,7 +280,7 @@ class Resolver:
     # dynamic dispatch inside a class: getattr(self, name)(…), handler tables of method names / method references,
     # helpers that return a handler.  Over-approximating (every method named by the table is a target).
     def dispatch_targets(self, fi: FuncInfo, f, depth=0) -> list[FuncInfo]:
-        if fi.cls is None:
+        if fi.cls is None and not isinstance(f, (ast.Name, ast.Subscript, ast.Call)):
             return []
         if isinstance(f, ast.Name):
             if f.id in fi.params() and f.id != "self":
@@ -369,13 +376,16 @@ class Resolver:
 
     def _leaves(self, fi, e, depth, busy):
         """methods of fi.cls that expression `e` may denote (as a bound/unbound method or by name)"""
-        cls = fi.cls
+        cls = fi.cls if fi.cls is not None else _NOCLS
         if depth > 14 or e is None:
             return []
         out = []
         def method(name):
-            m = self.p.find_method(cls, name)
-            return [m] if m is not None else []
+            m = self.p.find_method(cls, name) if cls is not _NOCLS else None
+            if m is None:
+                mf = [f for f in self.p.functions.get(name, []) if f.module is fi.module] if isinstance(name, str) else []
+                return mf[:1]
+            return [m]
         if isinstance(e, ast.Constant):
             return method(e.value) if isinstance(e.value, str) else []
         if isinstance(e, ast.Attribute):
@@ -407,6 +417,9 @@ class Resolver:
                 return self._leaves(fi, mod_assign, depth + 1, busy)
             if e.id in cls.methods:
                 return [cls.methods[e.id]]
+            mf = [f for f in self.p.functions.get(e.id, []) if f.module is fi.module]
+            if mf:
+                return mf[:1]          # a module-level function named in a table
             return []
         if isinstance(e, ast.Call):
             fn = e.func
